@@ -133,6 +133,9 @@ class FakeNet:
 
     def link_add_veth(self, veth0, _veth1):
         from treadmill import subproc
+        if getattr(self, 'refuse_add', False):
+            self.refuse_add = False
+            raise subproc.CalledProcessError(1, ['ip', 'link', 'add', veth0])
         if veth0 in self.veths:
             raise subproc.CalledProcessError(2, ['ip', 'link', 'add', veth0])
         self.veths[veth0] = ''
@@ -355,6 +358,14 @@ class World:
                 ext_device='eth0', ext_ip=EXT_IP, ext_mtu=1500, ext_speed=10000)
             self.svc.initialize(self.svc_dir)
             return 'ok'
+        if ev == 'OnCreateFail':
+            # 'ip link add' is refused once: the request fails after the address was allocated
+            self.net.refuse_add = True
+            try:
+                res = self.svc.on_create_request(real_owner(a[0]), {'environment': 'dev'})
+            finally:
+                self.net.refuse_add = False
+            return res['vip']       # the pair existed already: nothing was refused
         if ev in ('OnCreate', 'Import'):
             if ev == 'Import' and not os.path.isdir(self._owner_dirs(a[0])[1]):
                 return 'skip'       # _on_created: request vanished, impl not called
@@ -521,7 +532,7 @@ FOCUS = {
     'spec': ['OwnerAppears', 'OwnerDisappears', 'SpecCreate', 'SpecUnlink', 'SpecUnlinkAll',
              'SpecGC', 'Initialize'],
     'svc': ['OwnerAppears', 'OwnerDisappears', 'SvcStart', 'Import', 'Synchronize', 'OnCreate',
-            'OnDelete'],
+            'OnCreateFail', 'OnDelete'],
 }
 _GC = ['GcBegin', 'GcList', 'GcVisit', 'GcEnd']
 FOCUS['gcvip'] = ['OwnerAppears', 'OwnerDisappears', 'VipAlloc', 'VipFree'] + _GC
@@ -682,8 +693,17 @@ def gen_random(rng, depth, mode):
         return hist
     # service mode: the guards of Owners.tla (the service loop's own discipline)
     phase, pend, imp = 'down', set(), set()
+    ever = set()        # owners the service may have a record of
     for _ in range(depth):
         r = rng.random()
+        if phase == 'run' and r > 0.9:
+            # the interface pair of a NEW request is refused; the request is retried later
+            cand = [x for x in sorted(live) if x not in pend and x not in ever]
+            if cand:
+                o = rng.choice(cand)
+                ever.add(o)
+                hist.append(('OnCreateFail', [o]))
+                continue
         if phase == 'down' or r < 0.06:
             hist.append(('SvcStart', []))
             phase, pend, imp = 'import', set(), set(live)
@@ -703,6 +723,7 @@ def gen_random(rng, depth, mode):
             if imp:
                 o = rng.choice(sorted(imp))
                 imp.discard(o)
+                ever.add(o)
                 hist.append(('Import', [o]))
             else:
                 hist.append(('Synchronize', []))
@@ -710,7 +731,9 @@ def gen_random(rng, depth, mode):
         elif r < 0.75:
             cand = [x for x in sorted(live) if x not in pend]
             if cand:
-                hist.append(('OnCreate', [rng.choice(cand)]))
+                o = rng.choice(cand)
+                ever.add(o)
+                hist.append(('OnCreate', [o]))
         else:
             cand = [x for x in owners if x in pend or x not in live]
             if cand:
